@@ -416,7 +416,8 @@ def drv_dot(c, ctx, col):
             # which construct hid the variable from the parser (two different root causes, see notes/c17.md)
             method = form == "{first.abs()}" and L[0] in extra
             quoted = any(not n.isidentifier() for n in extra if not (method and n == L[0]))
-            sig = "dot-includes-lhs-variable:" + "+".join((["method-call-object"] if method else []) + (["quoted-name-in-python-factor"] if quoted else []))
+            sig = "dot-includes-lhs-variable:" + ("+".join((["method-call-object"] if method else []) +
+                                                           (["quoted-name-in-python-factor"] if quoted else [])) or "plain-use")
         else:
             sig = "dot-expansion-wrong"
         col.violation("%s :: %r :: %s" % (sig, text, cfg), dict(detail, got_dot=names, got_intercept=has_icpt, lhs_form=form), sig=sig)
